@@ -8,6 +8,7 @@ import ALV.Lemmas.C09Order
 import ALV.Lemmas.C09Inverse
 import ALV.Lemmas.C09Stft
 import ALV.Lemmas.C09StftRun
+import ALV.Lemmas.C09Err
 import Mathlib.Algebra.Order.Field.Rat
 import ALV.Common.Audit
 
@@ -444,12 +445,79 @@ end stft_run
 example : ∀ b : List ℚ, process ((⟨none, none, id, none, none⟩ : Stages ℚ).funcs 4) b = b := fun _ => rfl
 
 
+section branches
+variable {K : Type} [Semiring K]
+
+/-- **C09.7** size check of the loop: with `1 ≤ hop ≤ size`, the first block whose length is not
+`size` makes the generator raise ValueError("Wrong block size or declared"), after exactly the
+`hop` samples of each block before it (with or without a window). -/
+theorem ola_wrong_block_size (size hop : Nat) (hs : 0 < size) (h0 : 0 < hop) (hh : hop ≤ size)
+    (w? : Option (List K)) (hw : ∀ w, w? = some w → w.length = size)
+    (Bs : List (List K)) (B : List K) (rest : List (List K))
+    (hB : ∀ B' ∈ Bs, B'.length = size) (hb : B.length ≠ size) :
+    (olaCore size hop w? (Bs ++ B :: rest)).err = some .blockSize ∧
+    (olaCore size hop w? (Bs ++ B :: rest)).out = (olaCore size hop w? Bs).out.take (Bs.length * hop) := by
+  cases w? with
+  | none =>
+    simp only [olaCore, truthy]
+    exact olaLoop_bad_block size hop h0 hh Bs B rest _ (by simp) hB hb
+  | some w =>
+    have hwl := hw w rfl
+    obtain ⟨x, xs, rfl⟩ : ∃ x xs, w = x :: xs := by
+      cases w with
+      | nil => simp at hwl; omega
+      | cons x xs => exact ⟨x, xs, rfl⟩
+    simp only [olaCore, truthy, hwl, ne_eq, not_true_eq_false, if_false, List.map_append, List.map_cons]
+    have h1 : ∀ B' ∈ Bs.map (applyWnd (x :: xs)), B'.length = size := by
+      intro B' hB'
+      obtain ⟨B0, hB0, rfl⟩ := List.mem_map.1 hB'
+      rw [applyWnd_length_any, hwl, hB B0 hB0]; omega
+    have h2 : (applyWnd (x :: xs) B).length ≠ size := by
+      rw [applyWnd_length_any, hwl]; omega
+    have := olaLoop_bad_block size hop h0 hh _ _ (rest.map (applyWnd (x :: xs)))
+      (List.replicate size 0) (by simp) h1 h2
+    simpa using this
+
+/-- **C09.8** outside the quantifier, as coded: with `hop > size` the negative slice bound makes
+every iteration replace the memory by the block, so the output is the plain concatenation of the
+blocks (no zeros in the gaps, `m*size` samples instead of `m*hop + size - hop`). -/
+theorem ola_hop_gt_size_concat (size hop : Nat) (hh : size < hop) (Bs : List (List K))
+    (hB : ∀ B ∈ Bs, B.length = size) :
+    (olaCore size hop none Bs).out = Bs.flatten ∧ (olaCore size hop none Bs).err = none := by
+  simp only [olaCore, truthy]
+  exact olaLoop_hop_gt size hop hh Bs _ (by simp) hB
+
+end branches
+
+section misc
+variable {K : Type} [Field K] [LT K] [DecidableLT K] [DecidableEq K]
+
+/-- the number of samples, at the level of `overlap_add.list` itself -/
+theorem ola_out_length (size hop : Nat) (hs : 0 < size) (h0 : 0 < hop) (hh : hop ≤ size)
+    (Bs : List (List K)) (hB : ∀ B ∈ Bs, B.length = size)
+    (size? hop? : Option Nat) (hsz : detectSize size? Bs = some size) (hhop : hop?.getD size = hop)
+    (wnd : WndArg K) (w? : Option (List K)) (hres : resolveWnd size wnd = .ok w?)
+    (hw : ∀ w, w? = some w → w.length = size) (normalize : Bool) :
+    (overlapAddList Bs size? hop? wnd normalize).out.length = Bs.length * hop + size - hop := by
+  rw [(ola_eq_spec size hop hs h0 hh Bs hB size? hop? hsz hhop wnd w? hres hw normalize).1, ola_length]
+  omega
+
+/-- m = 0 with size detection: no block to read the size from, no sample (what the generator
+was written to do; the code raises RuntimeError here — defect D7). -/
+theorem ola_empty_detect (hop? : Option Nat) (wnd : WndArg K) (normalize : Bool) :
+    (overlapAddList ([] : List (List K)) none hop? wnd normalize).out = [] ∧
+    (overlapAddList ([] : List (List K)) none hop? wnd normalize).err = none := ⟨rfl, rfl⟩
+
+end misc
+
 /-- non-vacuity: two blocks of 3 with hop 2 and a non-trivial window -/
 example : (olaCore 3 2 (some [1, 2, 3]) [[1, 10, 100], [1000, 10000, 100000]] : Out Int).out
     = [1, 20, 1300, 20000, 300000] := by decide
 example : olaSpec (1 : Int) [1, 2, 3] 3 2 [[1, 10, 100], [1000, 10000, 100000]]
     = [1, 20, 1300, 20000, 300000] := by decide
 example : (olaCore 3 1 (none : Option (List Int)) []).out = [0, 0] := by decide
+example : (olaCore 3 2 (none : Option (List Int)) [[1, 2, 3], [4, 5], [6, 7, 8]]).out = [1, 2] := by decide
+example : (olaCore 2 3 (none : Option (List Int)) [[1, 2], [3, 4]]).out = [1, 2, 3, 4] := by decide
 
 end ALV.Props.C09
 
